@@ -16,7 +16,7 @@ func unmarshalPoints(order byteOrder, data []byte) ([]orb.Point, error) {
 	num := unmarshalUint32(order, data)
 	data = data[4:]
 
-	if len(data) < int(num*16) {
+	if uint64(len(data)) < uint64(num)*16 {
 		return nil, ErrNotWKB
 	}
 
